@@ -75,6 +75,10 @@ def valid_value(rng, kind, attr, enc_pool=None):
                            {'k2': None, 'k1': True}]
 
         return md
+    elif rng.chance(0.02):
+        # exact sizes around 2**16 / 2**17 (final newline included)
+        return {'$bytes': (b'x' * (rng.choice([2 ** 16, 2 ** 17]) +
+                                   rng.choice([-2, -1, 0, 1])) + b'\n').hex()}
     elif rng.chance(0.3):
         # a few *recurring* real diffs: several files with identical content
         return {'$bytes': rng.choice(COMMON_DIFFS).hex()}
@@ -208,6 +212,19 @@ def gen_tree_ops(rng, tname, max_changes=3, max_files=3, p_set=0.5,
             ops.append({'op': 'add_file', 'tree': tname, 'change': ci,
                         'attrs': fattrs})
             sets([ci, fi], 'file', sorted(ATTRS['file']), p_set * 0.3)
+
+    if p_list_edit and rng.chance(0.3) and nch:
+        # a file section copied (deepcopy / pickle) into a change, then the
+        # copy edited through its typed attributes
+        ci = rng.below(nch)
+        ops.append({'op': 'clone_file', 'tree': tname, 'from': tname,
+                    'path': [rng.below(nch), 0], 'change': ci,
+                    'how': rng.choice(['deepcopy', 'pickle'])})
+
+        for a in rng.sample(sorted(ATTRS['file']), 3) + ['meta', 'diff']:
+            ops.append({'op': 'set', 'tree': tname, 'path': [ci, -1],
+                        'attr': a,
+                        'value': valid_value(rng, 'file', a, enc_pool)})
 
     if p_list_edit and rng.chance(p_list_edit):
         for _ in range(rng.randint(1, 3)):
